@@ -956,3 +956,47 @@ theorem orphan_runs {c : Cfg} : ∀ (ls : List Label) {s s' : St}, Orphan s → 
     | some s1 => rw [hst] at hr; exact orphan_runs ls (orphan_step h l hst) hr
 
 end Kopf.C09
+
+namespace Kopf.C09
+
+/-! ### The re-sweep while paused -/
+
+theorem nextRound_bounds (p t : Tick) (_h : p ≤ t) : t ≤ nextRound p t ∧ nextRound p t < t + killerPeriod := by
+  unfold nextRound killerPeriod
+  unfold Tick at *
+  constructor <;> omega
+
+/-- From any state with a running instance whose memory is known — whatever is already in its stopper —
+    a round of the killer `d` ticks later starts `stop_daemon`, which cancels `backoff` later. -/
+theorem resweep_path {c : Cfg} {s : St} (h : Inv c s) {i : Inst} (hi : s.run = some i) (hk : s.known = true)
+    (ht : c.timeout.isSome = true) (hb : 0 ≤ c.b0) (d : Nat) :
+    ∃ s' i' tc, runs c s [.tick d, .kBegin .pausing, .tick c.b0.toNat, .kCancel (s.now + d)] = some s' ∧
+      s'.run = some i' ∧ i'.cancelAt = some tc ∧ tc ≤ s.now + d + c.b0 ∧ Reason.pausing ∈ i'.reasons ∧
+      Reason.cancelled ∈ i'.reasons := by
+  have hb' : ((c.b0.toNat : Nat) : Int) = c.b0 := Int.toNat_of_nonneg hb
+  have hcanc : ∀ t, i.cancelAt = some t → t ≤ s.now := fun t ht' => by
+    obtain ⟨_, _, _, h3⟩ := (h.inst i hi).canc t ht'
+    exact h3
+  let r : Tick := s.now + d
+  let i1 : Inst := { i.set .pausing r with kstarts := r :: i.kstarts }
+  let i2 : Inst := { i1.set .cancelled (r + c.b0) with cancelAt := some (i1.cancelAt.getD (r + c.b0)) }
+  let s' : St := { s with now := r + c.b0, run := some i2, known := true }
+  refine ⟨s', i2, i.cancelAt.getD (r + c.b0), ?_, rfl, rfl, ?_, ?_, ?_⟩
+  · simp only [runs, step, hi, hk, Bool.true_and]
+    simp only [beq_self_eq_true, Bool.true_or, if_true, hb']
+    have hg : (r ∈ i1.kstarts ∧ c.timeout.isSome = true ∧ r + c.b0 ≤ r + c.b0) := ⟨by simp [i1], ht, Int.le_refl _⟩
+    simp only [r, i1] at hg
+    simp only [hg, and_self, if_true]
+    rfl
+  · cases hc : i.cancelAt with
+    | none => simp [r]
+    | some t =>
+      simp only [Option.getD_some]
+      have := hcanc t hc
+      have hd : (0 : Int) ≤ (d : Int) := Int.natCast_nonneg d
+      unfold Tick at *
+      omega
+  · exact (mem_set (i := i1) (r := .cancelled) (now := r + c.b0)).mpr (Or.inl ((mem_set (i := i) (r := .pausing) (now := r)).mpr (Or.inr rfl)))
+  · exact (mem_set (i := i1) (r := .cancelled) (now := r + c.b0)).mpr (Or.inr rfl)
+
+end Kopf.C09
